@@ -5,6 +5,7 @@ import (
 	"go/ast"
 	"go/token"
 	"go/types"
+	"math/big"
 	"os"
 	"sort"
 	"strings"
@@ -1706,5 +1707,12 @@ func (pv *prov) emit(b *strings.Builder) {
 	sort.Strings(tl2)
 	fmt.Fprintf(b, "/-- C10 provenance: &T{…} literals the extractor takes to be transient records (their fields are not stores into T.f) -/\ndef provTransientLits : List String := [\n  %s]\n\n", q(tl2))
 	fmt.Fprintf(b, "/-- C10 provenance: the site table: (site, class id, sources of the stored value); source (0,_) heap, (1,_) the packet buffer,\n    (2,c) read from class c, (3,u) unknown number u -/\ndef provSites : List (String × Nat × List (Nat × Nat)) := [\n  %s]\n\n", strings.Join(rows, ",\n  "))
+	mask := new(big.Int)
+	for i, c := range names {
+		if taint[c] {
+			mask.SetBit(mask, i, 1)
+		}
+	}
+	fmt.Fprintf(b, "/-- C10 provenance: `provTaint` as a bit mask (bit c = class c) -/\ndef provTaintMask : Nat := %s\n\n", mask.String())
 	fmt.Fprintf(b, "/-- C10 provenance: classes that may hold a reference into a packet buffer (closure computed by the extractor; Lean checks that it IS closed) -/\ndef provTaint : List Nat := [%s]\n\n", strings.Join(tl, ", "))
 }
